@@ -42,7 +42,19 @@ FIX_COMMITS = ["d6ae502 (passive start-up cancellation: port/listener leak)",
                "253090b (Server.close() returned while a starting passive listener was open)",
                "ca3f636 (home_path not normalised became the working directory)",
                "d948632 (windows-flavour base: backslash / drive names were second virtual paths)",
-               "698672c (nameless listing line ending in a dot still dropped)"]
+               "698672c (nameless listing line ending in a dot still dropped)",
+               "955e4e1 (TLS + socket_timeout: AttributeError in StreamIO.close (regression of 54bbdb1))",
+               "8b0da87 (rest of a rejected reply read as the next reply)",
+               "4eeed1e (command cut off by end of stream carried out)",
+               "1a8bdb8 (verb with a non-ascii letter that lower() folds to ascii taken for the command)",
+               "c48356f (listing entry ../../x made Client.download write outside the destination)",
+               "ef7c23a (QUIT waited for ever when the reply writer had already failed)",
+               "fc68ce7 (QUIT pipelined behind a command still being carried out dropped its reply)",
+               "886db0d (ABOR returned while the cancelled worker was still winding up)",
+               "7549231 (PASV refused on ipv6 kept its listener)",
+               "d993a3c (close() returned while a session was still winding up)",
+               "600ece4 (quadratic path resolution and permission lookup)",
+               "016f7da (ABOR unanswered when winding up failed in the backend)"]
 
 # dimensions added after the fourth wave of seeded changes (plug-in APIs as part of the input space)
 EXTRA = {
